@@ -309,9 +309,13 @@ def _make_version_case(group, explicit_version, imax, sym):
         # custom colour specification with all three components custom at once (interaction between the components)
         cs = {"custom_color_spec_flag": True, "index": 0}
         for g, d in (("color_primaries", 1), ("color_matrix", 2), ("transfer_function", 1)):
-            i = sym("index_" + g, 0, 7, d)
-            cs[g] = {"custom_%s_flag" % g: True, "index": i}
-            info[g + "_index"] = i
+            # each component is custom or left at the custom spec's default (flag False), chosen per path
+            if bool(sym("flag_" + g, 0, 1, 1) == 1):
+                i = sym("index_" + g, 0, 7, d)
+                cs[g] = {"custom_%s_flag" % g: True, "index": i}
+                info[g + "_index"] = i
+            else:
+                cs[g] = {"custom_%s_flag" % g: False}
         vp["color_spec"] = cs
     elif group == "rates_and_range":
         i = sym("index_fr", 1, min(imax, 15), 3)
